@@ -1,6 +1,6 @@
 #!/bin/bash
 # like seed_eval.sh but against the scratch worktree /tmp/wt-<seed> (patch already applied there), leaving /repo alone
-seed=$1; shift; props=${@:-${seed%%-*}}; wt=/tmp/wt-$seed; case $seed in *-2) wt=/tmp/wt2-${seed%%-*};; *-3) wt=/tmp/wt3-${seed%%-*};; *-4) wt=/tmp/wt4-${seed%%-*};; *-5) wt=/tmp/ev5-${seed%%-*};; *-6) wt=/tmp/ev6-${seed%%-*};; *-7) wt=/tmp/ev7-${seed%%-*};; *-8) wt=/tmp/ev8-${seed%%-*};; *-9) wt=/tmp/ev9-${seed%%-*};; esac
+seed=$1; shift; props=${@:-${seed%%-*}}; wt=/tmp/wt-$seed; case $seed in *-2) wt=/tmp/wt2-${seed%%-*};; *-3) wt=/tmp/wt3-${seed%%-*};; *-4) wt=/tmp/wt4-${seed%%-*};; *-5) wt=/tmp/ev5-${seed%%-*};; *-6) wt=/tmp/ev6-${seed%%-*};; *-7) wt=/tmp/ev7-${seed%%-*};; *-8) wt=/tmp/ev8-${seed%%-*};; *-9) wt=/tmp/ev9-${seed%%-*};; *-10) wt=/tmp/ev10-${seed%%-*};; esac
 cd /verif
 for p in $props; do
   out=$(VERIF_BUILD=/tmp/vb-$seed VERIF_EVIDENCE=/tmp/vb-$seed/evidence VERIF_REPO=$wt ./check $p --no-coqchk 2>&1); rc=$?
